@@ -20,6 +20,7 @@ for d in seeded/${1:-}*/; do
   git -C /repo checkout -- . ; git -C /repo clean -fdq -- src include go-pathrs contrib 2>/dev/null
   if [ "$n" -gt 0 ]; then echo "CAUGHT $name: $n violation line(s), $c with a concrete input"; else echo "MISSED $name"; fail=1; fi
 done
-# put the evidence of the unchanged tree back
+# put the evidence of the unchanged tree back, and the generated Coq files (they were regenerated from changed sources)
 rm -rf evidence ; mkdir -p evidence ; cp -a "$bak"/. evidence/ ; rm -rf "$bak"
+git -C /verif checkout -- coq/gen 2>/dev/null ; python3 tools/extract_facts.py >/dev/null 2>&1
 exit $fail
